@@ -1,6 +1,7 @@
 import OpcuaVerif.Common
 import OpcuaVerif.Model.Enc
 import OpcuaVerif.Model.EncSchema
+import OpcuaVerif.Model.EncTcp
 import OpcuaVerif.Generated.Schemas
 
 /-!
@@ -15,6 +16,11 @@ Ops (tokens separated by one space):
   Type ∈ Variant | DataValue | DiagnosticInfo   (dec also: Chunk -> ok <consumed> x<chunk data>)
   sdec <Struct> <opts> x<hex>        -> the same for a generated structure (schema from `Generated/Schemas.lean`),
                                         result `ok <consumed> x<re-encoded> <byte_len>`
+  dec MsgHeader|Hello|Ack|Error <opts> x<hex> -> ok <consumed> <type 0..4> <size> [<u32s>] <text | ~>
+  dec ChunkHeader <opts> x<hex>      -> ok <consumed> x<header re-encoded>
+  dec ReadBytes <opts> x<hex>        -> ok <consumed> x<message bytes>          (MessageHeader::read_bytes)
+  msg <object id> <opts> x<hex>      -> noid | invalid 0 | ok <consumed> x<re-encoded> <byte_len> | err
+                                        (SupportedMessage::decode_by_object_id)
   srt <Struct> x<hex>                -> `sdec` under generous limits (bytes of a valid value)
 
 Value trees are in prefix notation, one token per atom (see `harness/src/enc.rs` for the grammar).
@@ -187,6 +193,36 @@ def showDec {α : Type} (input : Bytes) (reenc : α → Bytes) : Res α → Stri
   | .fault .alloc => "abort"
   | .fault .panic => "panic"
 
+def showStrTok : UAStr → String
+  | none => "-"
+  | some b => "s" ++ bytesToHex b
+
+def showTcp (input : Bytes) : Res TcpMsg → String
+  | .ok m rest =>
+    let text := match m.text with
+      | none => "~"
+      | some s => showStrTok s
+    s!"ok {input.length - rest.length} {m.mtype} {m.size} {natList m.nums} {text}"
+  | .err => "err"
+  | .fault .panic => "panic"
+  | .fault _ => "abort"
+
+def tcpStep (ty : String) (o : Opts) (b : Bytes) : Option String :=
+  if ty = "MsgHeader" then
+    some (match decMsgHeader b with
+      | .ok h rest => s!"ok {b.length - rest.length} {h.1} {h.2}"
+      | .err => "err"
+      | .fault .panic => "panic"
+      | .fault _ => "abort")
+  else if ty = "Hello" then some (showTcp b (decHello o drvCap b))
+  else if ty = "Ack" then some (showTcp b (decAck b))
+  else if ty = "Error" then some (showTcp b (decErrorMsg o drvCap b))
+  else if ty = "ChunkHeader" then
+    some (showDec b (fun h : Bytes × Nat × Nat × Nat => h.1 ++ [h.2.1] ++ le32 h.2.2.1 ++ le32 h.2.2.2)
+      (decChunkHeader b))
+  else if ty = "ReadBytes" then some (showDec b id (readBytes true o drvCap b))
+  else none
+
 partial def encStep (toks : List String) : String :=
   match toks with
   | "reset" :: _ => "ok"
@@ -229,9 +265,23 @@ partial def encStep (toks : List String) : String :=
       | .fault .panic => "panic"
       | .fault _ => "abort"
     | _, _, _ => "bad-op"
+  | ["msg", id, opts, hex] =>
+    match id.toNat?, pOpts opts, hexToBytes hex with
+    | some id, some o, some b =>
+      if !Gen.objectIds.contains id then "noid"
+      else match decByObjectId o drvCap drvFuel Gen.dispatchTable id b with
+        | .ok none _ => "invalid 0"
+        | .ok (some (t, v)) rest => s!"ok {b.length - rest.length} x{bytesToHex (encS t v)} {lenS t v}"
+        | .err => "err"
+        | .fault .panic => "panic"
+        | .fault _ => "abort"
+    | _, _, _ => "bad-op"
   | ["dec", ty, opts, hex] =>
     match pOpts opts, hexToBytes hex with
     | some o, some b =>
+      match tcpStep ty o b with
+      | some line => line
+      | none =>
       if ty = "Variant" then showDec b (encV true) (decV o drvCap true drvFuel 0 b)
       else if ty = "DataValue" then showDec b (encDV true) (decDV o drvCap true drvFuel 0 b)
       else if ty = "DiagnosticInfo" then showDec b (encDI true) (decDI o drvCap true drvFuel 0 b)
